@@ -22,7 +22,7 @@ def main():
         d = d.rstrip("/")
         sid = os.path.basename(d)
         meta = json.load(open(os.path.join(d, "meta.json")))
-        demo = meta["demo_cmd"].replace("/tmp/seedwt_%s" % meta["property"], WT).replace("/tmp/seedwt2_%s" % meta["property"], WT)
+        demo = meta["demo_cmd"].replace("/tmp/seedwt_%s" % meta["property"], WT).replace("/tmp/seedwt2_%s" % meta["property"], WT).replace("/tmp/seedwt3_%s" % meta["property"], WT)
         res = dict(id=sid)
         clean()
         rc, out = sh(demo); res["demo_on_unchanged"] = "pass" if rc == 0 else "FAIL"
